@@ -52,7 +52,7 @@ SEPS20 = [",", ";", "and", "OR", "+"]
 REGEXES21 = [(r"\d+", ["1", "42", "7"]), (r"[a-z]+", ["ab", "x", "foo", "q"]), (r"\w+", ["a1", "zz", "x"]),
              (r"x*", ["", "x", "xx"]), (r"[ \t]*", ["", " "]), (r"[A-Z]\w*", ["Ab", "Q"]), (r"[^;\n]+", ["a b", "x"]),
              (r"if\b", ["if"])]
-LITS21 = ["a", "if", "x", "kw", "k2", "_b", ";", "+", ",", "a-b", "1a", "ñ", "x y", "in", "é1", "٣a", "a.", "=>", "b_"]
+LITS21 = ["a", "if", "x", "kw", "k2", "_b", ";", "+", ",", "a-b", "1a", "ñ", "x y", "in", "é1", "٣a", "a.", "=>", "b_", "end\n", "k\n", "\tb", "a$"]
 SEPS21 = [",", ";", "and", "x", "+", "_"]
 
 _GEN = {}
